@@ -536,6 +536,9 @@ func knownExtType(name string) any {
 		return ""
 	case "x-nested":
 		return map[string]any{}
+	case "x-#value":
+		// the private carrier of a secret's value, registered by the caller: a pointer type accepts any string
+		return new(string)
 	}
 	return knownMagic{}
 }
@@ -569,6 +572,11 @@ func (o *loadOpts) label() string {
 	var l []string
 	if len(o.KnownExt) > 0 {
 		l = append(l, "known")
+		for _, k := range o.KnownExt {
+			if k == "x-#value" {
+				l[len(l)-1] = "known-carrier"
+			}
+		}
 	}
 	for _, f := range []struct {
 		on bool
@@ -593,6 +601,7 @@ func optsExhaustive() []*loadOpts {
 		{KnownExt: []string{"x-note"}},
 		{KnownExt: []string{"x-nested", "x-magic"}},
 		{KnownExt: knownExtKeys},
+		{KnownExt: []string{"x-#value"}},
 		{SkipInterpolation: true},
 		{SkipNormalization: true},
 		{SkipValidation: true},
@@ -614,6 +623,9 @@ func randOpts(r *rand.Rand) *loadOpts {
 		}
 		if len(o.KnownExt) == 0 {
 			o.KnownExt = []string{knownExtKeys[r.Intn(len(knownExtKeys))]}
+		}
+		if r.Intn(4) == 0 {
+			o.KnownExt = append(o.KnownExt, "x-#value")
 		}
 	}
 	o.SkipInterpolation = r.Intn(4) == 0
